@@ -22,6 +22,9 @@ RULES = {
     "C13-B1": "a new vertex is sum(p_i)/m with m equal to the number of summed positions (literal 3 only behind a triangle gate)",
     "C13-T1": "a literal refinement table has the oriented boundary of the element it replaces (interior edges cancel); new edges = edges of new faces",
     "C13-E1": "__exit__ prepares and re-instantiates with the class's dimension; triangle-only code is dominated by triangulate(); in-place edits clear the connectivity",
+    "C13-D1": "arity dispatch: triangulate_face leaves triangles alone, splits quads along a diagonal and fans anything larger; the tetrahedral "
+              "operations return untouched on non-tetrahedra / non-triangles; the three new cells of a face split go to three distinct slots; "
+              "the vertex degree used to detect double border triangles counts both endpoints of every edge",
     "C13-H1": "the editing block must not mutate containers shared with the input mesh, and a wrapper returns the re-instantiated mesh, not the stale input",
     "C13-H2": "re-preparing the edited data on exit adds the sides of the new faces as edges and flags no generated edge as hard (shared with C02-H1)",
     "C13-S1": "editor typestate: a method that cuts every edge and then looks up the midpoint of every face side needs the edge list to hold every "
@@ -41,6 +44,7 @@ def run(ctx):
     h1_hard_edges(ctx, "C13-H2")
     h2_hard_edges_typestate(ctx, "C13-H2")
     s1_edge_completeness(ctx)
+    d1_dispatch(ctx)
 
 
 # ---------------------------------------------------------------------------- I1
@@ -610,3 +614,97 @@ def s1_edge_completeness(ctx):
                   "faces added by triangulate() (quad diagonals) or by a previous 1-to-3-quads step have sides that are not in the "
                   "edge list yet (edges are only completed by prepare()): KeyError on any quad mesh / on the second repetition",
                   note=f"{n}: edges completed before being cut")
+
+
+# ---------------------------------------------------------------------------- D1
+def d1_dispatch(ctx):
+    from .. import order
+    repo = ctx.repo
+    fn = repo.func(SUB, "SurfaceSubdivision.triangulate_face")
+    site = ctx.site(SUB, fn)
+    b = sym.Bindings(fn)
+    # classify what happens for n = 3..7 by evaluating the if/elif chain on len(F)
+    chain = [st for st in fn.body if isinstance(st, ast.If)]
+    ok = False
+    if len(chain) == 1:
+        def symf(node):
+            r = b.resolve(node, at=chain[0])
+            if isinstance(r, ast.Call) and au.call_tail(r) == "len" and au.src(b.resolve(r.args[0], at=chain[0])).startswith("self.mesh.faces["):
+                return "n"
+            raise order.Unsupported(au.src(node))
+
+        def action(body):
+            if any(isinstance(x, ast.Return) for x in body):
+                return "none"
+            if any(au.call_tail(c) == "split_face_as_fan" for s_ in body for c in au.calls(s_)):
+                return "fan"
+            if any(au.call_tail(c) == "append" and au.src(c.func.value) == "self.mesh.faces" for s_ in body for c in au.calls(s_)):
+                return "diag"
+            return "?"
+        try:
+            res = {}
+            for n in (3, 4, 5, 6, 7):
+                node = chain[0]
+                act = "fall"
+                while True:
+                    pred = order.Pred(symf)
+                    if pred.eval(node.test, {"n": n}):
+                        act = action(node.body)
+                        break
+                    if len(node.orelse) == 1 and isinstance(node.orelse[0], ast.If):
+                        node = node.orelse[0]
+                        continue
+                    act = action(node.orelse) if node.orelse else "fall"
+                    break
+                res[n] = act
+            ok = res == {3: "none", 4: "diag", 5: "fan", 6: "fan", 7: "fan"}
+        except order.Unsupported:
+            ok = False
+    ctx.check(ok, "C13-D1", site, "triangulate_face does not dispatch `triangle: nothing, quad: diagonal split, larger: fan`",
+              "every non-triangular face must be triangulated, triangles must be left alone", note="arity dispatch 3/4/5+")
+    # gates of the tetrahedral operations
+    for q, what, k in (("VolumeSubdivision.split_cell_as_fan", "self.mesh.cells[", 4), ("VolumeSubdivision.split_tet_from_face_center", "self.mesh.faces[", 3)):
+        fn = repo.func(SUB, q)
+        b = sym.Bindings(fn)
+        ok = False
+        for st in fn.body:
+            if isinstance(st, ast.If) and st.body and isinstance(st.body[-1], ast.Return) and not st.orelse:
+                def symf(node, _st=st, _b=b, _what=what):
+                    r = _b.resolve(node, at=_st)
+                    if isinstance(r, ast.Call) and au.call_tail(r) == "len" and au.src(_b.resolve(r.args[0], at=_st)).startswith(_what):
+                        return "n"
+                    raise order.Unsupported(au.src(node))
+                try:
+                    w, _ = order.compare(st.test, f"n != {k}", symf)
+                    ok = ok or w is None
+                except order.Unsupported:
+                    pass
+        ctx.check(ok, "C13-D1", ctx.site(SUB, fn), f"{q.split('.')[-1]} does not return untouched unless the element has exactly {k} vertices",
+                  "the operation is defined on tetrahedra / triangles only; other elements must be left alone", note=f"gate len != {k}")
+    # split_tet_from_face_center: the three new cells go to slot c and two appends, all distinct
+    fn = repo.func(SUB, "VolumeSubdivision.split_tet_from_face_center")
+    used = []
+    for st in au.stmts(fn.body):
+        v = None
+        if isinstance(st, ast.Assign) and isinstance(st.targets[0], ast.Subscript) and au.src(st.targets[0].value) == "self.mesh.cells":
+            v = ("store", st.value)
+        elif isinstance(st, ast.Expr) and isinstance(st.value, ast.Call) and au.call_tail(st.value) == "append" \
+                and au.src(st.value.func.value) == "self.mesh.cells":
+            v = ("append", st.value.args[0])
+        if v and isinstance(v[1], ast.Subscript) and isinstance(v[1].value, ast.Name):
+            used.append((v[0], v[1].value.id, au.const(v[1].slice)))
+    ok = len(used) == 3 and len({u[1] for u in used}) == 1 and sorted(u[2] for u in used) == [0, 1, 2] \
+        and sorted(u[0] for u in used) == ["append", "append", "store"]
+    ctx.check(ok, "C13-D1", ctx.site(SUB, fn), f"the three tetrahedra replacing a cell are not stored as one replacement and two appends of three distinct new cells ({used})",
+              "a cell adjacent to the split face is replaced by exactly three tetrahedra", note="3 distinct new cells")
+    # degree counting
+    fn = repo.func(SUB, "split_double_boundary_edges_triangles")
+    incs = {}
+    for st in au.stmts(fn.body):
+        if isinstance(st, ast.AugAssign) and isinstance(st.op, ast.Add) and au.const(st.value) == 1 and isinstance(st.target, ast.Subscript):
+            loops = [a for a in au.ancestors(st) if isinstance(a, ast.For)]
+            if loops and au.src(loops[0].iter).endswith(".edges") and not au.guards(st, stop=loops[0]):
+                incs.setdefault(au.src(st.target.value), set()).add(au.src(st.target.slice))
+                tgt = [x.id for x in loops[0].target.elts] if isinstance(loops[0].target, ast.Tuple) else []
+    ok = any(v == set(tgt) and len(v) == 2 for v in incs.values()) if incs else False
+    ctx.check(ok, "C13-D1", ctx.site(SUB, fn), "the vertex degree does not count both endpoints of every edge", "", note="degree counts both endpoints")
